@@ -22,7 +22,10 @@ def run(ctx, rep):
                       "closes the connection before the error leaves; serve_all/serve_threaded close in finally")
     rep.rule("R11.4", "streams convert every transport failure into closed + EOFError (shared with R05.3); Channel.close "
                       "delegates to the stream")
-    rep.rule("R11.5", "waiters cannot hang on a closed connection: wait() keeps calling serve(); _cleanup drops pending callbacks")
+    rep.rule("R11.5", "waiters cannot hang on a closed connection: wait() keeps calling serve(); every exit of serve()'s locked "
+                      "region (incl. EOF) releases the lock and wakes the threads blocked on the condition")
+    rep.rule("R11.6", "end-of-stream is noticed: Stream.poll reports every event on the descriptor (a hang-up without data counts), "
+                      "so the following read sees EOF")
     rep.assume("exceptional edges model exceptions raised by the statement itself; asynchronous exceptions are not modelled",
                "simultaneous close() on two threads is a schedule question and is not decided",
                "EOFError escape summaries are computed over the resolved call graph (sa/summaries.py)")
@@ -313,3 +316,36 @@ def run(ctx, rep):
     rep.ob("R11.5", "AsyncResult.wait: no handler swallows the EOFError", not swallow,
            "wait() has no exception handler" if not swallow else "wait() catches exceptions raised by serve()",
            ctx.loc(swallow[0]) if swallow else fw.loc, kind="site")
+
+    K.share(ctx, rep, "c13", lambda o: o.rule in ("R13.1", "R13.4"), "R11.5", floor=6)
+
+    # ------------------------------------------------------------------ R11.6
+    fp = ctx.func("rpyc.core.stream.Stream.poll")
+    gp = ctx.cfg(fp, raises="default")
+    rep.analysed(fp, gp)
+    rdp = Q.ReachingDefs(gp)
+    rets = [n for n in gp.live if n.kind == "stmt" and isinstance(n.ast, ast.Return) and n.ast.value is not None]
+    rep.floor("R11.6", "return sites of Stream.poll", len(rets), 1)
+    for r in rets:
+        v = r.ast.value
+        inner = v
+        if isinstance(v, ast.Call) and A.call_name(v) == "bool" and len(v.args) == 1:
+            inner = v.args[0]
+        ok = False
+        why = "returns `%s`" % A.src(v)
+        if isinstance(inner, ast.Name):
+            defs = rdp.at(r, inner.id)
+            ok = bool(defs) and all(d != "param" and isinstance(d.ast, ast.Assign) and any(
+                isinstance(c.func, ast.Attribute) and c.func.attr == "poll" for c in A.calls(d.ast.value)) for d in defs)
+            why = "truthiness of the poll result list"
+        elif isinstance(inner, ast.Compare) and any("len(" in A.src(x) for x in [inner.left] + inner.comparators):
+            ok = True
+        rep.ob("R11.6", "Stream.poll: any event reported for the descriptor counts as readable", ok,
+               why if ok else
+               "%s: the poll result is filtered by event kind, so a hang-up that carries no data (a pipe whose writer vanished) is "
+               "never reported, recv() is never called and the EOF is never seen - the connection stays open and its hook never "
+               "runs" % why, ctx.loc(r))
+    regs = [c for c in A.calls(fp.node) if isinstance(c.func, ast.Attribute) and c.func.attr == "register"]
+    okreg = len(regs) == 1 and A.src(regs[0].args[0]) == "self.fileno()"
+    rep.ob("R11.6", "Stream.poll: polls this stream's own descriptor", okreg, "p.register(self.fileno(), ...)" if okreg else
+           "poll registers something else than the stream's descriptor", fp.loc, kind="site")
